@@ -17,7 +17,7 @@ HIST_OP_PROPS = {
     "fill": {"C13"}, "swap": {"C13"}, "swap_rows": {"C13"}, "swap_cols": {"C13"}, "set": {"C02"},
     "translate": {"C15"}, "flip_rows": {"C15"}, "flip_cols": {"C15"},
     "sort_by_row": {"C16"}, "sort_by_col": {"C17"},
-    "clone": {"C20"}, "into_vec": {"C20"}, "into_box": {"C20"}, "into_iter": {"C20"}, "from_view": {"C03", "C20"},
+    "clone": {"C20"}, "clone_from": {"C20"}, "into_vec": {"C20"}, "into_box": {"C20"}, "into_iter": {"C20"}, "from_view": {"C03", "C20"},
     "drop": {"C05"}, "end": {"C05"},
 }
 for _o in CTOR_OPS:
@@ -665,7 +665,7 @@ def attr_ctor(case, fail):
     return props, sig
 
 
-C20_HIST_OPS = CTOR_OPS | {"clone", "into_vec", "into_box", "into_iter", "from_view"}
+C20_HIST_OPS = CTOR_OPS | {"clone", "clone_from", "into_vec", "into_box", "into_iter", "from_view"}
 
 
 def p_C20(ctx):
